@@ -507,7 +507,7 @@ func init() {
 	harness.Register(&harness.Check{
 		ID:    "C07",
 		Level: "exploration",
-		Rule: "part linear: tuples of 1-3 sources and 0-2 bases over one universe of named frames, sample types n/count, t/{ms,us,ns}, b/{bytes,kb} in permuted order and partially overlapping, zero columns next to non-zero ones, a base that is the source itself re-expressed in other units / type order; modes plain, -base, -diff_base; observed through the real driver's -top (trim=false, unit = finest unit) and -proto reopened. part normalize: -normalize with -base / -diff_base, columns whose totals are made equal (ratio exactly 1). " +
+		Rule: "part linear: tuples of 1-3 sources and 0-2 bases over one universe of 2-7 named frames of which every profile holds its own subset in its own order with dense ids (table sizes and id assignments differ from profile to profile), sample types n/count, t/{ms,us,ns}, w/{ms,us,ns} (same unit family as t), b/{bytes,kb} in permuted order and partially overlapping, zero columns next to non-zero ones, a base that is the source itself re-expressed in other units / type order; modes plain, -base, -diff_base; observed through the real driver's -top (trim=false, unit = finest unit) and -proto reopened. part normalize: -normalize with -base / -diff_base, columns whose totals are made equal (ratio exactly 1). " +
 			"oracle: entry-wise signed sum of the individual reference reports with exact integer unit conversion; header total = sum |merged values| (diff_base: sum |base|); p - p empty; saved -proto reopened gives the same rows and header; normalize: every entry within half a unit per contributing sample of (base total / source total) x source - base in exact rationals. non-trivial = at least 2 profiles; distinct = run description",
 		Assumptions: []string{"units convert exactly because values are converted to the finest unit present", "sample types are matched by name in first-profile order; types absent from some profile are not reported"},
 		Parts: []harness.Part{
